@@ -23,8 +23,8 @@ PROP_UNITS = {
     'C07': ['deps', 'lemmas', 'cbc', 'pcbc', 'ige', 'cfb', 'cfb8', 'ofb', 'ctr', 'belt'],
     'C08': ['deps', 'lemmas', 'cfb', 'cfb8', 'ofb', 'ctr', 'belt'],
     'C09': ['lemmas', 'cbc', 'pcbc', 'ige', 'cfb', 'cfb8', 'ofb', 'ctr', 'belt'],
-    'C10': ['ctr', 'belt'],
-    'C11': ['ctr', 'belt'],
+    'C10': ['deps', 'ctr', 'belt'],
+    'C11': ['deps', 'ctr', 'belt'],
     'C12': ['deps', 'cbc', 'pcbc', 'ige', 'cfb', 'cfb8', 'ofb', 'ctr', 'belt', 'cts'],
     'C13': ['cts', 'cbc', 'pcbc', 'ige', 'cfb', 'cfb8', 'ofb', 'ctr', 'belt'],
     'C14': ['deps', 'lemmas', 'cts', 'ofb', 'cfb', 'ctr', 'belt', 'cbc'],
